@@ -69,6 +69,9 @@ TFeed == /\ IsEv(l, "Feed")
 \* every rendering lists every bucket with its lower bound and its count
 TRender == /\ IsEv(l, "Render")
            /\ Ev(l).rows = [i \in 1..Len(bounds) |-> <<bounds[i], counts[i]>>]
+           \* the text rendering also names each bucket's upper bound: the next bound, the last bucket is open
+           /\ (Has(Ev(l), "his") =>
+                  Ev(l).his = [i \in 1..Len(bounds) |-> IF i = Len(bounds) THEN <<-1>> ELSE bounds[i + 1]])
            /\ l' = l + 1
            /\ UNCHANGED <<bounds, counts, total, lats>>
 
